@@ -86,6 +86,48 @@ func parseGuard(g string) (guardSpec, error) {
 			}
 			return allowed(n), true
 		}}, nil
+	case "eqcall":
+		// the condition compares (== / !=) the result of a call to <name> with
+		// something; the allowed edge is the one on which they are equal (or, with
+		// a leading '!', different)
+		return guardSpec{desc: g, match: func(c ssa.Value) (int, bool) {
+			b, ok := c.(*ssa.BinOp)
+			if !ok || (b.Op != token.EQL && b.Op != token.NEQ) {
+				return 0, false
+			}
+			isCall := func(v ssa.Value) bool {
+				if ex, isEx := v.(*ssa.Extract); isEx {
+					v = ex.Tuple
+				}
+				ci, ok := v.(*ssa.Call)
+				return ok && vc.AnchorMatches(ci, "call:"+name)
+			}
+			if !isCall(b.X) && !isCall(b.Y) {
+				return 0, false
+			}
+			eqOnTrue := b.Op == token.EQL
+			if eqOnTrue == wantTrue {
+				return 0, true
+			}
+			return 1, true
+		}}, nil
+	case "res0", "res1", "res2":
+		// the condition is the boolean result #i of a call to <name>
+		idx := int(kind[3] - '0')
+		return guardSpec{desc: g, match: func(c ssa.Value) (int, bool) {
+			v, n := stripNot(c)
+			var call ssa.Value
+			if ex, isEx := v.(*ssa.Extract); isEx && ex.Index == idx {
+				call = ex.Tuple
+			} else if idx == 0 {
+				call = v
+			}
+			ci, ok := call.(*ssa.Call)
+			if !ok || !vc.AnchorMatches(ci, "call:"+name) {
+				return 0, false
+			}
+			return allowed(n), true
+		}}, nil
 	case "nilerr":
 		// the error result of a call to <name> compared with nil
 		return guardSpec{desc: g, match: func(c ssa.Value) (int, bool) {
@@ -121,10 +163,29 @@ func parseGuard(g string) (guardSpec, error) {
 func guardClauseResults(eng *vc.Engine, fname string) []StructResult {
 	spec := eng.Spec.Funcs[fname]
 	fn := eng.Func(fname)
-	if spec == nil || fn == nil || (len(spec.Guards) == 0 && len(spec.Orders) == 0) {
+	if spec == nil || fn == nil || (len(spec.Guards) == 0 && len(spec.Orders) == 0 && len(spec.Reads) == 0) {
 		return nil
 	}
 	var out []StructResult
+	for _, rc := range spec.Reads {
+		st := structOfPkg(fn, rc.Type)
+		if st == nil {
+			out = append(out, StructResult{Name: fmt.Sprintf("%s#reads:%s", fname, rc.Type), Desc: "struct type exists", OK: false, Status: "unbound", Detail: "type not found in the function's package"})
+			continue
+		}
+		skip := map[string]bool{}
+		for _, e := range rc.Except {
+			skip[e] = true
+		}
+		read := fieldsRead(fn, rc.Type)
+		for i := 0; i < st.NumFields(); i++ {
+			f := st.Field(i).Name()
+			if skip[f] {
+				continue
+			}
+			out = append(out, StructResult{Name: fmt.Sprintf("%s#reads:%s.%s", fname, rc.Type, f), Desc: fmt.Sprintf("%s reads field %s of %s (generated from the struct type)", fname, f, rc.Type), OK: read[f], Detail: "the field is never read in this function"})
+		}
+	}
 	for _, oc := range spec.Orders {
 		name := fmt.Sprintf("%s#order:%s before %s", fname, oc.A, oc.B)
 		as, bs := anchorSites(fn, oc.A), anchorSites(fn, oc.B)
@@ -200,6 +261,62 @@ func anchorSites(fn *ssa.Function, anchor string) []ssa.Instruction {
 				n++
 				if occ == 0 || occ == n {
 					out = append(out, ins)
+				}
+			}
+		}
+	}
+	return out
+}
+
+// structOfPkg finds struct type name in the package of fn.
+func structOfPkg(fn *ssa.Function, name string) *types.Struct {
+	for fn.Parent() != nil {
+		fn = fn.Parent()
+	}
+	if fn.Pkg == nil {
+		return nil
+	}
+	obj := fn.Pkg.Pkg.Scope().Lookup(name)
+	if obj == nil {
+		return nil
+	}
+	st, _ := obj.Type().Underlying().(*types.Struct)
+	return st
+}
+
+// fieldsRead: names of the fields of struct type tname that fn loads (through a
+// field address whose value is loaded, or a field extraction of a struct value).
+func fieldsRead(fn *ssa.Function, tname string) map[string]bool {
+	out := map[string]bool{}
+	isT := func(t types.Type) (*types.Struct, bool) {
+		if p, ok := t.Underlying().(*types.Pointer); ok {
+			t = p.Elem()
+		}
+		n, ok := t.(*types.Named)
+		if !ok || n.Obj().Name() != tname {
+			return nil, false
+		}
+		st, ok := n.Underlying().(*types.Struct)
+		return st, ok
+	}
+	for _, b := range fn.Blocks {
+		for _, ins := range b.Instrs {
+			switch x := ins.(type) {
+			case *ssa.FieldAddr:
+				st, ok := isT(x.X.Type())
+				if !ok {
+					continue
+				}
+				if refs := x.Referrers(); refs != nil {
+					for _, r := range *refs {
+						if u, isU := r.(*ssa.UnOp); isU && u.Op == token.MUL {
+							out[st.Field(x.Field).Name()] = true
+						}
+					}
+				}
+			case *ssa.Field:
+				if st, ok := isT(x.X.Type()); ok {
+					out[st.Field(x.Field).Name()] = true
 				}
 			}
 		}
